@@ -152,8 +152,8 @@ def graph_check(prop, tier, parts, *, level='model_checking', rule, assumptions=
     if problems:
         for p in problems:
             print(f'HARNESS-ERROR {prop}: {p}')
-        return 3
-    return 1 if nv else 0
+    # a violation takes precedence over a vacuity problem (which a faulty library can itself cause)
+    return 1 if nv else (3 if problems else 0)
 
 
 def enum_check(prop, tier, parts, *, level='exploration', rule, assumptions=(), vacuity=None, extra_cov=None):
@@ -214,5 +214,4 @@ def enum_check(prop, tier, parts, *, level='exploration', rule, assumptions=(), 
     if problems:
         for p in problems:
             print(f'HARNESS-ERROR {prop}: {p}')
-        return 3
-    return 1 if nv else 0
+    return 1 if nv else (3 if problems else 0)
